@@ -3,7 +3,7 @@ package otp
 // C03 — HOTP validation accepts exactly the codes of counters inside the window.
 
 //verif:harness prop=C03 name=window
-//verif:cases quick skew=0,1,2,10 digits=6 keylen=10 dlen=0 codesrc=0,1,2
+//verif:cases quick skew=0,1,2,10 digits=6,10 keylen=10 dlen=0 codesrc=0,1,2
 //verif:cases thorough skew=0..10 digits=1,6,8,10 keylen=20 dlen=0 codesrc=0,1,2
 //verif:replace github.com/ja7ad/otp.deriveRFC4226=verifStub_derive
 //verif:replace github.com/ja7ad/otp.DecodeSecret=verifStub_DecodeSecret
